@@ -76,7 +76,7 @@ func (r *Recorder) RunIsolated(testRe string, env map[string]string, timeout tim
 	logF, _ := os.Create(logPath)
 	cmd := exec.Command(os.Args[0], "-test.run", testRe, "-test.timeout", "0", "-test.count", "1")
 	cmd.Env = append(os.Environ(),
-		"VERIF_OUT="+dir, "VERIF_SHARD=0/1", "VERIF_ISOLATED=1",
+		"VERIF_OUT="+dir, "VERIF_SHARD=0/1", "VERIF_ISOLATED=1", fmt.Sprintf("VERIF_PORT_SHARD=%d", r.shard),
 		fmt.Sprintf("VERIF_SEED=%d", r.seed), "VERIF_TIER="+r.tier)
 	for k, v := range env {
 		cmd.Env = append(cmd.Env, k+"="+v)
